@@ -53,6 +53,10 @@ CHECKS = {
    technique="TLC model checking of spec/Builder.tla (the builder's sequence of promise/create/fulfil/save steps over the empty store; NoDanglingRefs, NothingPromised, SizeAboveAll, PagesReadBack) + replay through PdfBuilder::build with an independent structural validator and a reload comparison",
    text="TLC runs the builder Mech for every input within the bound and checks the structural and read-back invariants on the object graph it produces, refuting two deviations; every input is built with the real PdfBuilder, the bytes are judged by a validator that shares no code with the library (self-tested on seeded corruptions each run) and reloaded to compare pages, resources, operations and info with the input.",
    note="Bounded inputs; trusted: TLC, the validator (harness/src/validate.rs, refparse.rs)."),
+ "C20": dict(level="model_checking", design="5/C20", engine="A:import",
+   technique="TLC model checking of spec/Import.tla (deep clone with memo table as an explicit call stack over all small source graphs; Terminates, SingleCopy, Closure, UsedResourcesCopied) + replay through PageBuilder::clone_page / Importer / PdfBuilder on generated source documents",
+   text="TLC checks the intended clone design on every source graph over 3 objects (all edge sets incl. cycles) with every root set and resource configuration and refutes 'memo after recursion' (non-termination on cycles) and 'category not pruned'; every graph is realised as a source document, its page imported, the result built, reloaded and compared with the spec's expected copy set, plus closure, single copy, page equality and resource equality.",
+   note="The colour-space finding is predicted by the as-built model. XObject/Pattern/Properties resources are not modelled yet. A crashed import is observed at process level."),
 }
 
 def main():
